@@ -168,8 +168,11 @@ namespace
         std::atomic<long long> delivered{0};
         std::vector<std::atomic<long long>> last_delivered((std::size_t)nsrc);
         std::vector<std::atomic<long long>> last_accepted((std::size_t)std::max(1, producers));
+        std::vector<std::atomic<long long>> last_acc_call((std::size_t)std::max(1, producers)), last_acc_ret((std::size_t)std::max(1, producers));
         for (auto &a : last_delivered) a.store(-1);
         for (auto &a : last_accepted) a.store(-1);
+        for (auto &a : last_acc_call) a.store(-1);
+        for (auto &a : last_acc_ret) a.store(-1);
         auto make_eval = [&](int src) {
           return [&, src](const NodeView &view, DateTime evaluation_time) {
             auto root   = view.input(evaluation_time);
@@ -253,7 +256,13 @@ namespace
                     const long long c  = tr.now();
                     bool ok = blocking ? s.send_blocking(Int{id}) : s.try_send(Int{id});
                     const long long r = tr.now();
-                    if (ok) { accepted_total.fetch_add(1); last_accepted[(std::size_t)p].store(id); }
+                    if (ok)
+                    {
+                        accepted_total.fetch_add(1);
+                        last_acc_call[(std::size_t)p].store(c);
+                        last_acc_ret[(std::size_t)p].store(r);
+                        last_accepted[(std::size_t)p].store(id);
+                    }
                     tr.line("P " + std::to_string(tid()) + (blocking ? " block " : " try ") + std::to_string(id) + " " + std::to_string(c) + " " +
                             std::to_string(r) + " " + (ok ? "1" : "0"));
                     if (run_returned.load()) break;
@@ -297,7 +306,13 @@ namespace
                             const long long la = last_accepted[(std::size_t)p].load();
                             if (la < 0) continue;
                             any = true;
-                            if (la == last_delivered[(std::size_t)src].load()) hit = true;
+                            if (la != last_delivered[(std::size_t)src].load()) continue;
+                            // ... and it can be the FINAL value: no other producer's last accepted send began after this one returned
+                            bool final_ok = true;
+                            for (int q = src; q < producers; q += nsrc)
+                                if (q != p && last_accepted[(std::size_t)q].load() >= 0 &&
+                                    last_acc_call[(std::size_t)q].load() > last_acc_ret[(std::size_t)p].load()) final_ok = false;
+                            if (final_ok) hit = true;
                         }
                         if (any && !hit) return false;
                     }
